@@ -193,6 +193,11 @@ int main(int argc, char **argv) {
     }
     std::ifstream f(argv[1]);
     std::string line;
+    // ONE result vector for all cases, never cleared by the driver (the usual shape of a
+    // caller that solves in a loop): a solve must replace what an earlier solve left in it,
+    // and what it hands back must not share storage with anything the library still owns
+    resolvo::Vector<SolvableId> result;
+    resolvo::Vector<SolvableId> previous;   // a second handle on the last result's buffer
     while (std::getline(f, line)) {
         std::istringstream in(line);
         std::string tag;
@@ -239,7 +244,7 @@ int main(int argc, char **argv) {
         resolvo::Vector<SolvableId> soft;
         for (auto s : read_list(in)) soft.push_back(SolvableId{s - 1});
         resolvo::Problem problem = {reqs, cons, soft};
-        resolvo::Vector<SolvableId> result;
+        previous = result;
         resolvo::String err = resolvo::solve(p, problem, result);
         std::string e{std::string_view(err)};
         if (e.empty()) {
